@@ -2258,6 +2258,322 @@ def run_tsys(ctx):
             ctx.disagree(desc, M.tolist(), ans, stream='tsys')
 
 
+# ---------------------------------------------------------------------------
+# round 5: strata for code of the anchored files that no stream entered (docs/covmap/C19.md)
+
+def run_axis_rotation(ctx):
+    """public helper axis_rotation(axis, angle, vectors, axis_shift): model axisRotation + oracle
+    (rigid motion about the shifted axis line)"""
+    from odl.tomo.util.utility import axis_rotation
+    cases, lines, res = [], [], []
+    for i in range(6 if ctx.quick else 30):
+        a = _unit(gen_vec(ctx.rng, 3)) if i % 3 else np.array([[0., 0, 1], [0, 1., 0]][i % 2])
+        ang = round(ctx.rng.uniform(-7, 7), 3)
+        sh = gen_vec(ctx.rng, 3) if i % 2 else [0.0, 0.0, 0.0]
+        vs = [gen_vec(ctx.rng, 3) for _ in range(3)]
+        single = (i % 3 == 1)
+        arg = vs[0] if single else vs
+        st, out = guarded(lambda: np.asarray(axis_rotation(a, ang, arg, axis_shift=sh) if i % 2 else
+                                             axis_rotation(a, ang, arg), dtype=float))
+        c, si = cs(ang)
+        for k, v in enumerate(vs[:1] if single else vs):
+            cases.append((a, ang, sh, v, st, out, k, single))
+            lines.append('axrot ax={} ang={} v={} sh={}'.format(vec(a), fl([c, si]), vec(v), vec(sh)))
+    outs = core.run_driver('C19', lines)
+    for (a, ang, sh, v, st, out, k, single), ans in zip(cases, outs):
+        desc = {'kind': 'axrot', 'axis': a.tolist(), 'ang': ang, 'shift': list(sh), 'v': list(v)}
+        ctx.case(('axis_rotation', 'single' if single else 'bulk', 'shift' if any(sh) else 'noshift'))
+        ctx.hit('axis_rotation/' + ('single' if single else 'bulk') + ('/shift' if any(sh) else ''))
+        if st != 'ok' or out.shape != ((1, 3) if single else (3, 3)):
+            ctx.violation('axis_rotation call', '{} shape {}'.format(st, getattr(out, 'shape', None)), desc)
+            continue
+        r = out[k]
+        bad = axrot_oracle(a, ang, sh, v, r)
+        for msg in bad:
+            ctx.violation('axis_rotation rigid motion', msg, desc)
+        m = parse_ans(ans)
+        if m is None or not close(r, m['r'], 4e-12 * (1 + np.abs(v).max() + np.abs(np.asarray(sh)).max())):
+            ctx.disagree(desc, r.tolist(), ans, stream='axrot')
+
+
+def axrot_oracle(a, ang, sh, v, r):
+    a, sh, v, r = (np.asarray(x, dtype=float) for x in (a, sh, v, r))
+    shp = sh - a.dot(sh) * a
+    x, y = v - shp, r - shp
+    bad = []
+    tol = 1e-12 * (1 + np.abs(x).max())
+    if abs(a.dot(x) - a.dot(y)) > tol:
+        bad.append('component along the axis changed: {} -> {}'.format(a.dot(x), a.dot(y)))
+    xp, yp = x - a.dot(x) * a, y - a.dot(y) * a
+    if abs(np.linalg.norm(xp) - np.linalg.norm(yp)) > tol:
+        bad.append('distance to the axis changed')
+    # right-handed rotation by `ang` about a
+    exp = math.cos(ang) * xp + math.sin(ang) * np.cross(a, xp)
+    if not close(yp, exp, tol * 4):
+        bad.append('not the right-handed rotation by the angle about the axis: {} expected {}'.format(
+            yp.tolist(), exp.tolist()))
+    return bad
+
+
+def astra_rows(s, g):
+    """expected rows of the astra_*_geom_to_vec functions from SINGLE-parameter evaluations"""
+    cls = s['cls']
+    ang = np.asarray(g.angles, dtype=float)
+    n = ang.shape[-1]
+    mid = g.det_params.mid_pt
+    px = np.asarray(g.det_partition.cell_sides, dtype=float)
+    rows = []
+    for i in range(n):
+        a = tuple(float(x) for x in ang[:, i]) if ang.ndim == 2 else float(ang[i])
+        if cls == 'fan':
+            R = np.array([[0.0, 1.0], [-1.0, 0.0]])
+            rows.append(np.concatenate([R.dot(g.src_position(a)), R.dot(g.det_point_position(a, float(mid[0]))),
+                                        R.dot(g.det_axis(a)) * px[0]]))
+            continue
+        mp = tuple(float(x) for x in mid)
+        first = g.src_position(a) if cls == 'cone' else -np.asarray(g.det_to_src(a, mp))
+        ax = np.asarray(g.det_axes(a), dtype=float)
+        blocks = [first, g.det_point_position(a, mp), ax[1] * px[1], ax[0] * px[0]]
+        rows.append(np.concatenate([np.asarray(b, dtype=float)[::-1] for b in blocks]))
+    return np.array(rows)
+
+
+def run_astra_vecs(ctx, specs):
+    """odl/tomo/backends/astra_setup.py: the pure-NumPy converters that hand the geometry's vectors
+    to the ASTRA back-end (no astra module needed).  Oracle: every row is what the single-parameter
+    evaluation gives at that angle, in the documented (z, y, x) / rotated-by--90-degrees layout."""
+    from odl.tomo.backends import astra_setup as A
+    fn = {'fan': A.astra_conebeam_2d_geom_to_vec, 'cone': A.astra_conebeam_3d_geom_to_vec,
+          'par3a': A.astra_parallel_3d_geom_to_vec, 'par3e': A.astra_parallel_3d_geom_to_vec}
+    seen = set()
+    for s in specs:
+        if s['cls'] not in fn or s.get('expect_reject') or s.get('ndarray_args'):
+            continue
+        k = (s['cls'], s['how'], s.get('det', 'flat'), bool(s.get('ssh')), 'pitch' in s, 't' in s, s.get('neul', 0))
+        if ctx.quick and k in seen:
+            continue
+        seen.add(k)
+        st, g = guarded(lambda: build(s))
+        if st != 'ok':
+            continue
+        desc = {'kind': 'astra', 'spec': jsonable_spec(s)}
+        ctx.case(('astra-vec',) + k)
+        ctx.hit('astra-vec/' + s['cls'])
+        st, got = guarded(lambda: np.asarray(fn[s['cls']](g), dtype=float))
+        st2, exp = guarded(lambda: astra_rows(s, g))
+        if st != 'ok' or st2 != 'ok':
+            ctx.violation('astra geom_to_vec {} raises'.format(s['cls']), st + ' / ' + st2, desc)
+            continue
+        tol = TOL * (1 + scale_of(s, g, float(np.abs(np.asarray(g.angles)).max()))) * 4
+        if got.shape != exp.shape or not close(got, exp, tol):
+            ctx.violation('astra geom_to_vec {} how={} det={}'.format(s['cls'], s['how'], s.get('det', 'flat')),
+                          'rows differ from the single-parameter evaluation in the documented layout: max diff {}'.format(
+                              np.abs(got - exp).max() if got.shape == exp.shape else (got.shape, exp.shape)), desc)
+
+
+def validation_cases():
+    """(name, callable, expected exception types): invalid input must be REFUSED (a geometry that
+    violates the relations must not be constructible); check_bounds=True refuses parameters outside
+    the partitions"""
+    import odl
+    T = odl.tomo
+    from odl.tomo.geometry import detector as D
+    from odl.tomo.geometry.geometry import Geometry, DivergentBeamGeometry, AxisOrientedGeometry
+    from odl.tomo.util import utility as U
+    ap = odl.uniform_partition(0, 2 * np.pi, 6)
+    ap2 = odl.uniform_partition([0, 0], [3, 3], (3, 2))
+    d1 = odl.uniform_partition(-1, 1, 4)
+    d2 = odl.uniform_partition([-1, -1], [1, 1], (4, 3))
+    V, Ty, NI = (ValueError,), (TypeError,), (NotImplementedError,)
+    fan = T.FanBeamGeometry(ap, d1, 3, 2)
+    fanc = T.FanBeamGeometry(ap, d1, 3, 2, det_curvature_radius=4)
+    cone = T.ConeBeamGeometry(ap, d2, 3, 2)
+    conec = T.ConeBeamGeometry(ap, d2, 3, 2, det_curvature_radius=(4, None))
+    cones = T.ConeBeamGeometry(ap, d2, 3, 2, det_curvature_radius=(4, 4))
+    p2 = T.Parallel2dGeometry(ap, d1)
+    p3 = T.Parallel3dAxisGeometry(ap, d2)
+    pe = T.Parallel3dEulerGeometry(ap2, d2)
+    sp2 = odl.uniform_discr([-1, -1], [1, 1], (4, 4))
+    sp1 = odl.uniform_discr(-1, 1, 4)
+    c = []
+    c += [('fan/zero-src_to_det_init', lambda: T.FanBeamGeometry(ap, d1, 3, 2, src_to_det_init=(0, 0)), V),
+          ('fan/negative-src_radius', lambda: T.FanBeamGeometry(ap, d1, -1, 2), V),
+          ('fan/negative-det_radius', lambda: T.FanBeamGeometry(ap, d1, 1, -2), V),
+          ('fan/both-radii-zero', lambda: T.FanBeamGeometry(ap, d1, 0, 0), V),
+          ('fan/apart-2d', lambda: T.FanBeamGeometry(ap2, d1, 3, 2), V),
+          ('fan/frommatrix-shape', lambda: T.FanBeamGeometry.frommatrix(ap, d1, 3, 2, np.eye(3)), V),
+          ('fan/angle-out-of-range', lambda: fan.det_refpoint(7.0), V),
+          ('fan/src-angle-out-of-range', lambda: fan.src_position(-0.5), V),
+          ('fan/rotation-angle-out-of-range', lambda: fan.rotation_matrix(7.0), V),
+          ('cone/zero-src_to_det_init', lambda: T.ConeBeamGeometry(ap, d2, 3, 2, src_to_det_init=(0, 0, 0)), V),
+          ('cone/curvature-two-different-radii', lambda: T.ConeBeamGeometry(ap, d2, 3, 2, det_curvature_radius=(4, 5)), NI),
+          ('cone/curvature-not-2-tuple', lambda: T.ConeBeamGeometry(ap, d2, 3, 2, det_curvature_radius=(4, 4, 4)), V),
+          ('cone/negative-src_radius', lambda: T.ConeBeamGeometry(ap, d2, -3, 2), V),
+          ('cone/negative-det_radius', lambda: T.ConeBeamGeometry(ap, d2, 3, -2), V),
+          ('cone/both-radii-zero', lambda: T.ConeBeamGeometry(ap, d2, 0, 0), V),
+          ('cone/apart-2d', lambda: T.ConeBeamGeometry(ap2, d2, 3, 2), V),
+          ('cone/frommatrix-unknown-kwarg', lambda: T.ConeBeamGeometry.frommatrix(ap, d2, 3, 2, np.eye(3), axis=(0, 0, 1)), Ty),
+          ('cone/frommatrix-shape', lambda: T.ConeBeamGeometry.frommatrix(ap, d2, 3, 2, np.eye(2)), V),
+          ('cone/axis-shape', lambda: T.ConeBeamGeometry(ap, d2, 3, 2, axis=(0, 1)), V),
+          ('cone/axis-zero', lambda: T.ConeBeamGeometry(ap, d2, 3, 2, axis=(0, 0, 0)), V),
+          ('cone/angle-out-of-range', lambda: cone.rotation_matrix(7.0), V),
+          ('cone/unknown-kwarg', lambda: T.ConeBeamGeometry(ap, d2, 3, 2, bogus=1), Ty),
+          ('cone/translation-shape', lambda: T.ConeBeamGeometry(ap, d2, 3, 2, translation=(1, 2)), V),
+          ('par2/apart-2d', lambda: T.Parallel2dGeometry(ap2, d1), V),
+          ('par2/frommatrix-shape', lambda: T.Parallel2dGeometry.frommatrix(ap, d1, np.eye(3)), V),
+          ('par2/angle-out-of-range', lambda: p2.rotation_matrix(7.0), V),
+          ('par2/det_pos_init-shape', lambda: T.Parallel2dGeometry(ap, d1, det_pos_init=(0, 1, 0)), V),
+          ('par3e/apart-1d', lambda: T.Parallel3dEulerGeometry(odl.uniform_partition([0] * 4, [1] * 4, [2] * 4), d2), V),
+          ('par3e/frommatrix-shape', lambda: T.Parallel3dEulerGeometry.frommatrix(ap2, d2, np.eye(2)), V),
+          ('par3e/angles-out-of-range', lambda: pe.rotation_matrix((4.0, 1.0)), V),
+          ('par3a/apart-2d', lambda: T.Parallel3dAxisGeometry(ap2, d2), V),
+          ('par3a/frommatrix-shape', lambda: T.Parallel3dAxisGeometry.frommatrix(ap, d2, np.eye(2)), V),
+          ('factory/cone-source-inside-2d', lambda: T.cone_beam_geometry(sp2, 1.0, 2.0), V),
+          ('factory/helical-source-inside', lambda: T.helical_geometry(
+              odl.uniform_discr([-1, -1, -1], [1, 1, 1], (4, 4, 4)), 1.0, 2.0, num_turns=2), V),
+          ('factory/cone-ndim-1', lambda: T.cone_beam_geometry(sp1, 3.0, 2.0), V),
+          ('factory/parallel-ndim-1', lambda: T.parallel_beam_geometry(sp1), V),
+          ('geometry/ndim-0', lambda: Geometry(0, ap, D.Flat1dDetector(d1, [1, 0])), V),
+          ('geometry/motion_part-type', lambda: Geometry(2, 'x', D.Flat1dDetector(d1, [1, 0])), Ty),
+          ('geometry/detector-type', lambda: Geometry(2, ap, 'x'), Ty),
+          ('geometry/abstract-det_refpoint', lambda: Geometry.det_refpoint(fan, 0.0), NI),
+          ('geometry/abstract-rotation_matrix', lambda: Geometry.rotation_matrix(fan, 0.0), NI),
+          ('geometry/abstract-det_to_src', lambda: Geometry.det_to_src(fan, 0.0, 0.0), NI),
+          ('geometry/abstract-src_position', lambda: DivergentBeamGeometry.src_position(fan, 0.0), NI),
+          ('detector/partition-type', lambda: D.Flat1dDetector('x', [1, 0]), Ty),
+          ('detector/abstract-surface', lambda: D.Detector.surface(fan.detector, 0.0), NI),
+          ('detector/abstract-surface_deriv', lambda: D.Detector.surface_deriv(fan.detector, 0.0), NI),
+          ('flat1d/partition-2d', lambda: D.Flat1dDetector(d2, [1, 0]), V),
+          ('flat1d/axis-zero', lambda: D.Flat1dDetector(d1, [0, 0]), V),
+          ('flat2d/partition-1d', lambda: D.Flat2dDetector(d1, [[1, 0, 0], [0, 1, 0]]), V),
+          ('flat2d/axes-shape', lambda: D.Flat2dDetector(d2, [[1, 0], [0, 1]]), V),
+          ('flat2d/axes-dependent', lambda: D.Flat2dDetector(d2, [[1, 0, 0], [2, 0, 0]]), V),
+          ('circ/partition-2d', lambda: D.CircularDetector(d2, [1, 0], 2.0), V),
+          ('circ/axis-zero', lambda: D.CircularDetector(d1, [0, 0], 2.0), V),
+          ('circ/radius-nonpositive', lambda: D.CircularDetector(d1, [1, 0], 0.0), V),
+          ('cyl/partition-1d', lambda: D.CylindricalDetector(d1, [[1, 0, 0], [0, 1, 0]], 2.0), V),
+          ('cyl/axes-shape', lambda: D.CylindricalDetector(d2, [[1, 0], [0, 1]], 2.0), V),
+          ('cyl/axes-dependent', lambda: D.CylindricalDetector(d2, [[1, 0, 0], [2, 0, 0]], 2.0), V),
+          ('cyl/axes-not-perpendicular', lambda: D.CylindricalDetector(d2, [[1, 0, 0], [1, 1, 0]], 2.0), V),
+          ('cyl/radius-nonpositive', lambda: D.CylindricalDetector(d2, [[1, 0, 0], [0, 1, 0]], -1.0), V),
+          ('sph/partition-1d', lambda: D.SphericalDetector(d1, [[1, 0, 0], [0, 1, 0]], 2.0), V),
+          ('utility/axis_rotation_matrix-axis-shape', lambda: U.axis_rotation_matrix([0, 1], 0.3), V),
+          ('utility/axis_rotation-vectors-shape', lambda: U.axis_rotation([0, 0, 1], 0.3, [1, 0]), V),
+          ('utility/from_to-from-shape', lambda: U.rotation_matrix_from_to([1, 0, 0, 0], [1, 0, 0]), V),
+          ('utility/from_to-to-shape', lambda: U.rotation_matrix_from_to([1, 0, 0], [1, 0, 0, 0]), V),
+          ('utility/from_to-shapes-differ', lambda: U.rotation_matrix_from_to([1, 0, 0], [1, 0]), V),
+          ('utility/transform_system-matrix-shape', lambda: U.transform_system([0, 1], None, [[1, 0]], matrix=np.eye(3)), V),
+          ('utility/transform_system-bad-condition', lambda: U.transform_system(
+              [0, 1], None, [[1, 0]], matrix=np.diag([1.0, 1e-9])), (np.linalg.LinAlgError,)),
+          ('utility/perpendicular_vector-zero', lambda: U.perpendicular_vector([0, 0, 0]), V)]
+    # parameters outside the partitions with check_bounds=True
+    for nm, det, par in (('flat1d', fan.detector, 1.5), ('circ', fanc.detector, 1.5),
+                         ('flat2d', cone.detector, (1.5, 0.0)), ('cyl', conec.detector, (1.5, 0.0)),
+                         ('sph', cones.detector, (0.0, 1.5))):
+        for meth in ('surface', 'surface_deriv', 'surface_normal', 'surface_measure'):
+            c.append(('{}/{}-param-out-of-range'.format(nm, meth),
+                      (lambda det=det, meth=meth, par=par: getattr(det, meth)(par)), V))
+    return c
+
+
+def run_validation(ctx):
+    for nm, f, exc in validation_cases():
+        ctx.case(('validation', nm))
+        ctx.hit('validation/' + nm.split('/')[0])
+        st, r = guarded(f)
+        ok = any(st.startswith('err:' + e.__name__ + ':') for e in exc)
+        if not ok:
+            ctx.violation('validation ' + nm, 'expected {} but got {}{}'.format(
+                '/'.join(e.__name__ for e in exc), st[:300], '' if st != 'ok' else ' -> ' + repr(r)[:200]),
+                {'kind': 'validation', 'name': nm})
+
+
+def run_accessors(ctx, specs):
+    """small read-only attributes and option paths of the anchored classes that the relations rely on:
+    grids/params of geometry and detector, det_curvature_radius, None defaults handed to the
+    constructors, transform_system passing None through, vectorised surface_measure,
+    check_bounds=False accepting parameters outside the partitions with the relations intact"""
+    import odl
+    from odl.tomo.util import utility as U
+    seen = set()
+    for s in specs:
+        if s.get('expect_reject'):
+            continue
+        k = (s['cls'], s.get('det', 'flat'), bool(s.get('cb0')))
+        if k in seen:
+            continue
+        seen.add(k)
+        st, g = guarded(lambda: build(s))
+        if st != 'ok':
+            continue
+        desc = {'kind': 'accessors', 'spec': jsonable_spec(s)}
+        ctx.case(('accessors',) + k)
+        ctx.hit('accessors/' + s['cls'])
+        ndim = 2 if s['cls'] in ('par2', 'fan') else 3
+
+        def chk():
+            bad = []
+            if g.grid != g.partition.grid or g.det_grid != g.det_partition.grid or g.params != g.partition.set:
+                bad.append('grid / det_grid / params differ from the partition')
+            d = g.detector
+            if d.grid != d.partition.grid or d.shape != d.partition.shape or d.size != d.partition.size:
+                bad.append('detector grid / shape / size differ from the partition')
+            if not isinstance(g.implementation_cache, dict):
+                bad.append('implementation_cache is not a dict')
+            if s['cls'] == 'cone':
+                exp = None if s.get('det', 'flat') == 'flat' else float(s['cr'])
+                if g.det_curvature_radius != exp:
+                    bad.append('det_curvature_radius {} expected {}'.format(g.det_curvature_radius, exp))
+            # vectorised surface_measure = single-parameter values
+            if ndim == 2:
+                ps = np.array([s['dlo'], 0.0, s['dhi']])
+                one = [float(d.surface_measure(float(p))) for p in ps]
+                many = np.asarray(d.surface_measure(ps), dtype=float)
+            else:
+                ps = np.array([[s['dlo'], s['vlo']], [0.0, 0.0], [s['dhi'], s['vhi']]])
+                one = [float(d.surface_measure(tuple(p))) for p in ps]
+                many = np.asarray(d.surface_measure(ps.T), dtype=float)
+            if many.shape != (3,) or not close(many, one, 1e-12 * (1 + max(one))):
+                bad.append('vectorised surface_measure {} differs from single-parameter values {}'.format(
+                    many.tolist(), one))
+            return bad
+        st, bad = guarded(chk)
+        for msg in ([st] if st != 'ok' else bad):
+            ctx.violation('accessors {} det={}'.format(s['cls'], s.get('det', 'flat')), msg, desc)
+        if s.get('cb0'):
+            # check_bounds=False: parameters outside the partitions are accepted and the relations hold
+            ctx.hit('accessors/check_bounds=False-outside')
+            ang = (s['amax'] + 0.7,) * s['neul'] if s['cls'] == 'par3e' else s['amax'] + 0.7
+            dp = s['dhi'] + 0.3 if ndim == 2 else (s['dhi'] + 0.3, s['vlo'] - 0.2)
+            r = impl_point(s, g, ang, dp)
+            tol = TOL * (1 + scale_of(s, g, 0.0 if isinstance(ang, tuple) else ang)) * 4
+            for rel, msg in oracle_point(s, g, ang, dp, r, tol):
+                ctx.violation('{} {} outside-partitions check_bounds=False'.format(rel, s['cls']), msg,
+                              {'kind': 'point', 'spec': jsonable_spec(s), 'ang': ang, 'dp': dp})
+    # None defaults handed to the constructors explicitly; transform_system passes None through
+    ctx.hit('accessors/none-defaults')
+    ap = odl.uniform_partition(0, 2 * np.pi, 6)
+    d1 = odl.uniform_partition(-1, 1, 4)
+
+    def nd():
+        bad = []
+        # (FanBeamGeometry(src_to_det_init=None) / Parallel2dGeometry(det_pos_init=None) are not documented
+        # inputs: they raise IndexError inside transform_system, so conebeam.py l.206 / parallel.py l.450 are dead)
+        r = U.transform_system([3.0, 4.0], [0.0, 1.0], [None, [1.0, 0.0]])
+        if r[1] is not None or not close(r[2], [0.8, -0.6], 1e-12):
+            bad.append('transform_system other_vecs with None: {}'.format(r))
+        e2 = U.euler_matrix(0.3, None, 0.5)
+        e3 = U.euler_matrix(0.3, 0.0, 0.5)
+        e4 = U.euler_matrix(0.3, 0.4, None)
+        if e2.shape != (3, 3) or not close(e2, e3, 0) or not close(e4, U.euler_matrix(0.3, 0.4, 0.0), 0):
+            bad.append('euler_matrix with theta=None / psi=None is not the zero-angle matrix')
+        return bad
+    st, bad = guarded(nd)
+    ctx.case(('accessors', 'none-defaults'))
+    for msg in ([st] if st != 'ok' else bad):
+        ctx.violation('accessors none-defaults', msg, {'kind': 'accessors-none'})
+
+
 def stream(ctx, name, f, *a):
     """A stream must never take the harness down: an exception escaping the guarded calls
     (possible only when the real code returns something of an unexpected kind) is reported
@@ -2295,6 +2611,10 @@ def run(ctx):
     stream(ctx, 'fromto', run_fromto)
     stream(ctx, 'tsys', run_tsys)
     stream(ctx, 'helix', run_helix, specs)
+    stream(ctx, 'axis_rotation', run_axis_rotation)
+    stream(ctx, 'astra-vecs', run_astra_vecs, specs)
+    stream(ctx, 'validation', run_validation)
+    stream(ctx, 'accessors', run_accessors, specs)
     unhit = [b for b in MODEL_BRANCHES if not ctx.branches.get(b)]
     ctx.extra['unhit_model_branches'] = unhit
     if unhit:
@@ -2337,7 +2657,13 @@ MODEL_BRANCHES = (
         'short-given', 'zero-given',
         'zero-default', 'zero-both', 'tiny-given')]
     + ['tsys/model/raises', 'tsys/model/ident', 'tsys/model/rot']
-    + ['helix/period', 'helix/period/shifts'])
+    + ['helix/period', 'helix/period/shifts']
+    + ['axis_rotation/single', 'axis_rotation/bulk', 'axis_rotation/single/shift', 'axis_rotation/bulk/shift']
+    + ['astra-vec/' + c for c in ('fan', 'cone', 'par3a', 'par3e')]
+    + ['validation/' + c for c in ('fan', 'cone', 'par2', 'par3a', 'par3e', 'factory', 'geometry', 'detector',
+                                   'flat1d', 'flat2d', 'circ', 'cyl', 'sph', 'utility')]
+    + ['accessors/' + c for c in ('par2', 'par3a', 'par3e', 'fan', 'cone', 'check_bounds=False-outside',
+                                  'none-defaults')])
 
 
 def search(ctx, broken):
@@ -2356,6 +2682,10 @@ def search(ctx, broken):
         stream(ctx, 'fromto', run_fromto)
         stream(ctx, 'tsys', run_tsys)
         stream(ctx, 'helix', run_helix, specs)
+        stream(ctx, 'axis_rotation', run_axis_rotation)
+        stream(ctx, 'astra-vecs', run_astra_vecs, specs)
+        stream(ctx, 'validation', run_validation)
+        stream(ctx, 'accessors', run_accessors, specs)
     finally:
         real.tier = saved
 
@@ -2432,6 +2762,29 @@ def replay(ctx, case):
                                                         np.array(case['v'], dtype=float)))
         bad = fromto_oracle(case['u'], case['v'], st, R)
         return '; '.join(bad) if bad else None
+    if kind == 'validation':
+        for nm, f, exc in validation_cases():
+            if nm == case['name']:
+                st, r = guarded(f)
+                ok = any(st.startswith('err:' + e.__name__ + ':') for e in exc)
+                return None if ok else 'expected {} got {}'.format('/'.join(e.__name__ for e in exc), st[:300])
+        return None
+    if kind == 'axrot':
+        from odl.tomo.util.utility import axis_rotation
+        st, r = guarded(lambda: np.asarray(axis_rotation(case['axis'], case['ang'], case['v'],
+                                                         axis_shift=case['shift']), dtype=float)[0])
+        if st != 'ok':
+            return st
+        bad = axrot_oracle(case['axis'], case['ang'], case['shift'], case['v'], r)
+        return '; '.join(bad) if bad else None
+    if kind == 'astra':
+        tmp2 = core.Ctx(ctx.pid, 'thorough', ctx.seed)
+        run_astra_vecs(tmp2, [case['spec']])
+        return '; '.join(v['what'] for v in tmp2.violations) if tmp2.violations else None
+    if kind in ('accessors', 'accessors-none'):
+        tmp2 = core.Ctx(ctx.pid, 'thorough', ctx.seed)
+        run_accessors(tmp2, [case['spec']] if 'spec' in case else [])
+        return '; '.join(v['what'] for v in tmp2.violations) if tmp2.violations else None
     if kind == 'tsys':
         from odl.tomo.util.utility import transform_system
         st, r = guarded(lambda: transform_system(np.array(case['p'], dtype=float), np.array(case['d'], dtype=float),
